@@ -77,7 +77,7 @@ def run_calls(pm, calls):
         except BaseException as e:  # noqa: BLE001 - FunctionTimedOut is a BaseException
             if type(e).__name__ in ("KeyboardInterrupt", "SystemExit", "GeneratorExit"):
                 raise
-            obs.append(("exc", type(e).__name__))
+            obs.append(("exc", type(e).__name__, str(e)[:80]))
     return tuple(obs)
 
 
@@ -116,6 +116,12 @@ def judge(obs, ref):
         else:
             if o[0] != "exc":
                 return "call %d: serial raises %s, parallel returns %r" % (k, r[1], o)
+            # "an exception as it would serially": when several tasks fail, serial execution
+            # raises the failure of the first one in task order, whatever order they finish in
+            # (judged for ordinary exceptions; a FunctionTimedOut or an unpicklable exception may
+            # legitimately arrive wrapped)
+            if r[1] == "ValueError" and tuple(o[1:]) != tuple(r[1:]):
+                return "call %d: serial raises %s(%r), parallel raises %s(%r)" % (k, r[1], r[2], o[1], o[2] if len(o) > 2 else None)
     return None
 
 
@@ -250,7 +256,9 @@ def lattice(tier):
         # (measured: 3 workers, 5 tasks, 2 delays = 138k executions per cell): calls with more
         # than 4 tasks are explored with single failures and at most one feeder delay
         big = n > 4
-        for f in failsets(n, 1 if big else maxfail):
+        # two simultaneous failures (which exception reaches the caller?) also in the quick tier
+        # for calls of <= 3 tasks
+        for f in failsets(n, 1 if big else (2 if n <= 3 else maxfail)):
             for d in (delays[:2] if big else delays):
                 cells.append((nw, [(n, list(f))], d))
     for nw, n1, n2 in two:
